@@ -63,6 +63,9 @@ def corruptions(src: gen.ChartSrc):
     for p in range(k):
         s = copy.deepcopy(src); s.tempo[p] = (s.tempo[p][0], 0)
         yield "zero-tempo", p, s, None  # decided by what it governs, see below
+        # the same with an anchor on every tempo line's tick: an anchor is a note for the editor, it never vouches for a time
+        s = copy.deepcopy(s); s.anchors = [(t, 1000 * i + 7) for i, (t, _) in enumerate(s.tempo)]
+        yield "zero-tempo-anchored", p, s, None
 
 
 def governs_something(src: gen.ChartSrc, p: int) -> bool:
